@@ -14,6 +14,8 @@
 #include <sys/personality.h>
 
 #include <cerrno>
+#include <sstream>
+#include <sys/wait.h>
 #include "checks/stream_corpus.h"
 #include "draco/compression/point_cloud/point_cloud_sequential_decoder.h"
 #include "draco/compression/point_cloud/point_cloud_kd_tree_decoder.h"
@@ -440,6 +442,39 @@ int main(int argc, char **argv) {
     printf("%016llx\n", (unsigned long long)h);
     return 0;
   }
+  for (int i = 1; i + 1 < argc; ++i) {
+    if (std::string(argv[i]) != "--x-fresh-process") continue;
+    // child mode for (e): a process that has not run any draco encoder or decoder yet forks one
+    // grandchild per preface choice; the grandchild runs (optionally) the preface generator, then
+    // generator |gi| twice, and prints "<preface> <hash of call 1> <hash of call 2>".
+    build_generators();
+    const size_t gi = strtoull(argv[i + 1], nullptr, 10), n = g_gens.size();
+    if (gi >= n) return 3;
+    fflush(stdout);
+    for (int pk = -1; pk < 6; ++pk) {
+      const long pre = pk < 0 ? -1 : long((n * size_t(pk)) / 6 + size_t(pk));
+      pid_t pid = fork();
+      if (pid == 0) {
+        Bytes b;
+        uint64_t dg = 0;
+        if (pre >= 0 && size_t(pre) < n) run_gen(g_gens[pre], &b, &dg);
+        uint64_t h[2];
+        for (int rep = 0; rep < 2; ++rep) {
+          Bytes bb;
+          uint64_t d2 = 0;
+          h[rep] = run_gen(g_gens[gi], &bb, &d2) ? mc::hash_combine(mc::hash_bytes(bb.data(), bb.size()), d2) : 77;
+        }
+        printf("%ld %016llx %016llx\n", pre, (unsigned long long)h[0], (unsigned long long)h[1]);
+        fflush(stdout);
+        _exit(0);
+      }
+      int st = 0;
+      waitpid(pid, &st, 0);
+      if (!WIFEXITED(st) || WEXITSTATUS(st) != 0) printf("%ld crashed crashed\n", pre);
+      fflush(stdout);
+    }
+    return 0;
+  }
   mc::Runner R(argc, argv, "C06");
   R.level = "model_checking";
   const bool asan = R.flag("asan");
@@ -836,6 +871,57 @@ int main(int argc, char **argv) {
     };
     s.describe = [](uint64_t idx) { return "child process pair " + std::to_string(idx) + " (ASLR inherited/off)"; };
     R.add(s);
+  }
+  // (e) process history: the first and the second call in a process that has run nothing else, and
+  // the same two calls after each of 6 preface generators, against this worker's own result (a
+  // process with a long history). Catches state kept in function-local statics / thread_local
+  // caches, which objects-level histories (a) cannot see because every worker is 'warm'.
+  if (!asan) {
+    mc::Space s;
+    s.name = "fresh_process_first_and_second_call";
+    s.size = g_gens.size();
+    s.timeout_s = 120;
+    s.run = [](uint64_t idx, mc::Ctx &ctx) {
+      Bytes b;
+      uint64_t dg = 0;
+      char own[32];
+      snprintf(own, sizeof own, "%016llx", (unsigned long long)(run_gen(g_gens[idx], &b, &dg) ? mc::hash_combine(mc::hash_bytes(b.data(), b.size()), dg) : 77));
+      int fds[2];
+      if (pipe(fds)) return;
+      pid_t pid = fork();
+      if (pid == 0) {
+        dup2(fds[1], 1);
+        close(fds[0]);
+        close(fds[1]);
+        const std::string is = std::to_string(idx);
+        execl(g_self.c_str(), g_self.c_str(), "--x-fresh-process", is.c_str(), (char *)nullptr);
+        _exit(9);
+      }
+      close(fds[1]);
+      std::string out;
+      char buf[512];
+      ssize_t n;
+      while ((n = read(fds[0], buf, sizeof buf)) > 0) out.append(buf, n);
+      close(fds[0]);
+      int st;
+      waitpid(pid, &st, 0);
+      std::istringstream in(out);
+      std::string pre, h1, h2;
+      int lines = 0;
+      while (in >> pre >> h1 >> h2) {
+        ++lines;
+        ctx.count("fresh_process_encodes", 2);
+        const std::string where = pre == "-1" ? "no-preface" : "after-another-generator";
+        if (h1 != h2) ctx.fail("first-and-second-call-in-a-fresh-process-differ:" + where, g_gens[idx].name + " preface generator " + pre + ": " + h1 + " vs " + h2);
+        else if (h1 != own) ctx.fail("fresh-process-result-differs-from-warm-process:" + where, g_gens[idx].name + " preface generator " + pre + ": " + h1 + " vs " + own);
+      }
+      if (lines != 7) ctx.fail("fresh-process-child-failed", g_gens[idx].name + " produced " + std::to_string(lines) + " lines");
+      else ctx.nontrivial_unique();
+      ctx.state(mc::hash_bytes(reinterpret_cast<const uint8_t *>(own), 16));
+    };
+    s.describe = [](uint64_t idx) { return "generator " + g_gens[idx].name + " [" + text(g_gens[idx].g) + " " + text(g_gens[idx].c) + "] first/second call in a fresh process, alone and after 6 prefaces"; };
+    R.add(s);
+    R.require("fresh_process_encodes", 1000);
   }
   R.require("encodes_in_histories", 1000);
   R.require("decodes_in_histories", 100);
